@@ -173,3 +173,113 @@ def toy_pdf(rng, pids, polarized=False):
         return A * x**a * (1 - x) ** b * (1 + c * x)
 
     return xf, par
+
+
+# ----------------------------------------------------------------- path configs
+DEFAULT_MASSES = (1.51, 4.92, 172.5)
+
+
+def path_cfg(rng, qcd=None, qed=0, nf_pairs=None, max_targets=1, methods=None, pts=("unpol",), npts=(3,), scvars=(None,), same_patch_ok=True):
+    """Random configuration whose targets require evolution along a flavour path.
+
+    Returns a plain dict understood by :func:`cfg_cards`.
+    """
+    qcd = int(qcd if qcd is not None else rng.integers(1, 4))
+    nf_pairs = nf_pairs or [(3, 3), (3, 4), (4, 4), (4, 5), (4, 3), (5, 4), (3, 5), (5, 3), (5, 5), (4, 6), (5, 6)]
+    ratios = [float(x) for x in rng.choice([0.7, 1.0, 1.0, 1.5, 2.0], size=3)]
+    masses = [DEFAULT_MASSES[0] * float(rng.uniform(0.9, 1.2)), DEFAULT_MASSES[1] * float(rng.uniform(0.9, 1.1)), float(rng.choice([172.5, 60.0, 30.0]))]
+    walls = [m * r for m, r in zip(masses, ratios)]  # linear scales
+    bounds = [1.25] + walls + [400.0]
+
+    def scale_in_patch(nf):
+        lo, hi = bounds[nf - 3], bounds[nf - 2]
+        lo, hi = max(lo, 1.25), min(hi, 400.0)
+        if hi <= lo * 1.05:
+            lo, hi = max(1.25, lo * 0.8), lo * 1.6
+        return float(np.exp(rng.uniform(np.log(lo * 1.02), np.log(hi * 0.98))))
+
+    nf0, nff = nf_pairs[int(rng.integers(len(nf_pairs)))]
+    consistent = bool(rng.integers(4))  # 1 in 4: mu0 not in its default patch
+    mu0 = scale_in_patch(nf0) if consistent else float(np.exp(rng.uniform(np.log(1.3), np.log(100.0))))
+    targets = []
+    nt = int(rng.integers(1, max_targets + 1))
+    for i in range(nt):
+        nft = nff if i == 0 else int(rng.choice([nf0, nff, min(6, max(nf0, nff))]))
+        mu = scale_in_patch(nft) if rng.integers(4) else float(np.exp(rng.uniform(np.log(1.3), np.log(200.0))))
+        if (mu, nft) not in targets:
+            targets.append((mu, nft))
+    n = int(rng.choice(list(npts)))
+    xmin = float(rng.choice([1e-3, 1e-2, 0.05]))
+    scvar = scvars[int(rng.integers(len(scvars)))]
+    down = any(t[1] < nf0 for t in targets)
+    cfg = dict(
+        qcd=qcd,
+        qed=int(qed),
+        method=str((methods or METHODS)[int(rng.integers(len(methods or METHODS)))]) if not qed else "iterate-exact",
+        pt=str(pts[int(rng.integers(len(pts)))]),
+        init=[mu0, int(nf0)],
+        targets=[[float(m), int(f)] for m, f in targets],
+        masses=masses,
+        ratios=ratios,
+        xgrid=[float(x) for x in np.geomspace(xmin, 1.0, n)],
+        degree=int(min(n - 1, rng.integers(1, 4))),
+        scvar=scvar,
+        xif=float(rng.choice([0.5, 2.0, 1.4])) if scvar else 1.0,
+        inversion=str(rng.choice(["exact", "expanded"])) if down else None,
+        iters=int(rng.integers(1, 4)),
+        alphas=float(rng.uniform(0.105, 0.122)),
+        alphaem=0.007496252,
+        em_running=bool(rng.integers(2)) if qed else False,
+        max_order=[10, 0],
+        cores=1,
+        n3lo_var=[0] * 7,
+        fhmruvv=True,
+        matching_order=None,
+        scheme="POLE",
+    )
+    return cfg
+
+
+def cfg_cards(cfg):
+    """cfg dict -> (raw theory, raw operator)."""
+    th = raw_theory(
+        order=(cfg["qcd"], cfg["qed"]),
+        alphas=cfg["alphas"],
+        alphaem=cfg.get("alphaem", 0.007496252),
+        ref=tuple(cfg.get("ref", (91.2, 5))),
+        masses=cfg["masses"],
+        scheme=cfg.get("scheme", "POLE"),
+        ratios=cfg["ratios"],
+        xif=cfg["xif"],
+        matching_order=cfg.get("matching_order"),
+        n3lo_ad_variation=cfg.get("n3lo_var", [0] * 7),
+        use_fhmruvv=cfg.get("fhmruvv", True),
+        em_running=cfg.get("em_running", False),
+    )
+    op = raw_operator(
+        init=cfg["init"],
+        mugrid=cfg["targets"],
+        xgrid=cfg["xgrid"],
+        method=cfg["method"],
+        iterations=cfg["iters"],
+        max_order=cfg.get("max_order", [10, 0]),
+        degree=cfg["degree"],
+        is_log=cfg.get("is_log", True),
+        scvar=cfg["scvar"],
+        inversion=cfg["inversion"],
+        cores=cfg.get("cores", 1),
+        polarized=cfg["pt"] == "pol",
+        time_like=cfg["pt"] == "tl",
+    )
+    return th, op
+
+
+def cfg_key(cfg):
+    import json
+
+    return json.dumps(cfg, sort_keys=True, default=str)
+
+
+def solve_cfg(cfg, **kw):
+    th, op = cfg_cards(cfg)
+    return solve(th, op, **kw)
